@@ -264,6 +264,7 @@ func main() {
 			}
 		}
 	}
+	burstCases(r, thorough)
 	for k, v := range stats {
 		note("stat %s %d", k, v)
 	}
